@@ -66,7 +66,32 @@ Theorem C16_liveness_fetching_was_requested_partial : forall c t0 tr id p ft,
   exists ids, In (ft, (p, ids)) (snd (run true c (init t0) tr)) /\ In id ids.
 Proof. exact fetcher_fetching_was_requested. Qed.
 
-(* The end-to-end statement these compose to, NOT proved as one theorem: under timer fairness
+(* (7) The trace-level composition of (1)-(3),(5).  Timer fairness with latency [lat] = [fair_run]: while
+   the timer is armed no event happens later than due + lat, and once its value is in the channel the
+   loop's next action is the pass, within lat.  From ANY reachable state that holds the item, on ANY
+   fair continuation that goes on long enough: if the item stays in the table until the loop's next pass
+   ([held_until_pass]: not received, not evicted), is reported interesting and is younger than
+   ForgetTimeout at that pass, then the loop takes a pass within ArriveTimeout + 2*lat, after which
+   the item's last request is at most ArriveTimeout - GatherSlack old.  (By (6) that entry is a request
+   really emitted.)  So an item announced at t has a request in
+   [t - (Arrive - Slack), t + Arrive + 2*lat]; suspension plays no role because passes ignore it. *)
+Theorem C16_liveness_response_partial : forall c lat t0 t st id tr,
+  cfg_wf c -> (c_slack c <= c_arrive c)%Z -> (0 <= lat)%Z -> reachT c t0 t st ->
+  fair_run c lat st t tr -> held_until_pass c id st tr ->
+  (exists now ev, In (now, ev) tr /\ (t + c_arrive c + 2 * lat < now)%Z) ->
+  (forall now i ch sc, In (now, ETimer i ch sc) tr -> In id i) ->
+  (forall p1 now i ch sc p2 e oldest more, tr = p1 ++ (now, ETimer i ch sc) :: p2 ->
+     lru_find id (ann (fst (run true c st p1))) = Some e -> e_val e = oldest :: more ->
+     (now - a_time oldest <= c_forget c)%Z) ->
+  exists p1 now_p i ch sc p2,
+    tr = p1 ++ (now_p, ETimer i ch sc) :: p2 /\ (now_p <= t + c_arrive c + 2 * lat)%Z /\
+    exists p ft, f_find id (fetching (fst (step true c (fst (run true c st p1)) now_p (ETimer i ch sc)))) = Some (p, ft) /\
+                 (now_p - ft <= c_arrive c - c_slack c)%Z.
+Proof. exact fetcher_response_request. Qed.
+
+(* The end-to-end statement in terms of the environment only (what (7) still takes as hypotheses about the
+   table - the item stays held and young - derived from "not received, stays interesting, cache not
+   overflowing"), which these compose to, NOT proved as one theorem: under timer fairness
    with latency [lat], an item announced at t (reported interesting from then on, not received,
    announcement younger than ForgetTimeout, cache not overflowing) is requested during
    [t, t + 2*ArriveTimeout + 2*lat]. *)
@@ -110,3 +135,4 @@ Print Assumptions C16_liveness_pass_requests_partial.
 Print Assumptions C16_liveness_notify_requests_partial.
 Print Assumptions C16_liveness_pass_leaves_recent_partial.
 Print Assumptions C16_liveness_fetching_was_requested_partial.
+Print Assumptions C16_liveness_response_partial.
